@@ -40,8 +40,8 @@ CLAIMED = {
          "Sizes are tiny (<= 17 bytes) and lengths concrete per case (symbolic lengths do not finish in CBMC). NOT decided: the resource clauses (stack depth, allocation out of proportion: CBMC has no stack/heap-size model; see DESIGN §7 for the sites observed), result metadata / rows / ERROR / EVENT / SUPPORTED bodies, custom type parser, warnings and custom payload extensions (Vec<String>/HashMap construction), LZ4/Snappy, the async frame reader, container iterators on arbitrary bytes.",
          K),
  "C09": ("DESIGN.md §5 C09",
-         "QUERY requests: QueryParameters::serialize for every subset of the optional fields x small value lists, and the whole frame from SerializedRequest::make (version, flags incl. tracing and the compression bit, opcode, length field, body) are equal byte-for-byte to an independent CQL v4 encoder for all field values; the checked length writers refuse every oversize length (all usize values) and otherwise write the exact big-endian prefix.",
-         "Only QUERY (and the parameter block shared with EXECUTE) plus the frame header are decided; EXECUTE ids, BATCH, PREPARE, REGISTER, OPTIONS, AUTH_RESPONSE, STARTUP bodies are not yet; LZ4/Snappy bodies are replaced by an opaque body (only the header of compressed frames is checked). Value lists <= 2 cells, paging state <= 2 bytes.",
+         "Every request kind the driver builds is decided against an independent CQL v4 request encoder, byte for byte, with all scalar fields and content bytes symbolic: QUERY (QueryParameters::serialize for every subset of the optional fields x small value lists; whole frame incl. the compressed shape), EXECUTE (statement id, optional result-metadata id, parameters; legacy Execute too), PREPARE, OPTIONS, AUTH_RESPONSE (no token / empty / bytes), STARTUP (string map), REGISTER (event names through the Display impl), BATCH (mixed prepared / unprepared statements, per-statement value lists with patched counts, type, consistency, serial / timestamp flags) - each under SerializedRequest::make: version 4, tracing flag, stream 0, the request's opcode, length = body size. Value-list / statement count mismatches in BATCH are refused in both directions; the checked length writers refuse every oversize length (all usize values) and otherwise write the exact big-endian prefix.",
+         "Shapes are small and concrete in length (ids <= 16 bytes, texts <= 3 bytes, <= 3 (4) batch statements, <= 2 cells per list, paging state <= 2 bytes); LZ4/Snappy bodies are replaced by an opaque body (only the header of compressed frames is checked); BATCH is instantiated with Vec<SerializedValues> (the typed RawBatchValuesAdapter path is C01/C17 territory); HashMap iteration order is an arbitrary fixed order. Trusted: mir2smt + library models (byte sink, iterator adaptors, Display-to-string).",
          S),
  "C11": ("DESIGN.md §5 C11",
          "shard_of == ScyllaDB's formula and < nr_shards for ALL tokens x shard counts 1..=65535 x msb 0..=63; lowest-port rule for ALL valid port ranges and shard counts (Some = lowest congruent port in range, None iff none exists); ShardInfo::new rejects iff shard >= nr_shards; draw_source_port_for_shard_from_range and iter_source_ports_for_shard_from_range decided for ALL ranges/shard counts with the RNG draw a symbolic value and the iterator chain given abstract sequence semantics (every yielded port is in range and congruent, every such port is yielded once, none when there is none); Kani cross-check of the same glue on small windows.",
